@@ -117,10 +117,13 @@ def _norm_arg(t: T) -> Optional[T]:
 
 
 def _minus_eye(t: T) -> Optional[Tuple[T, int]]:
-    if t.op == "binop" and t.args[0] == "Sub" and \
-            is_call_to(t.args[2], "numpy.eye", "numpy.identity") and \
-            t.args[2].args[1] and tm.is_const(t.args[2].args[1][0]):
-        return t.args[1], t.args[2].args[1][0].args[1]
+    if t.op == "binop" and t.args[0] == "Sub":
+        eye = t.args[2]
+        while eye.op == "named":      # a named / memoised identity matrix
+            eye = eye.args[1]
+        if is_call_to(eye, "numpy.eye", "numpy.identity") and \
+                eye.args[1] and tm.is_const(eye.args[1][0]):
+            return t.args[1], eye.args[1][0].args[1]
     return None
 
 
